@@ -93,8 +93,8 @@ def Res.toObs (r : Res) : ResObs :=
 
 /-! ## checkers: each returns the list of failed clauses (empty = the property holds on the trace) -/
 
-def isum (l : List Int) : Int := l.foldl (· + ·) 0
-def nsum (l : List Nat) : Nat := l.foldl (· + ·) 0
+def isum (l : List Int) : Int := l.sum
+def nsum (l : List Nat) : Nat := l.sum
 
 def stAt (st : List OpState) (r : Nat) : OpState := st.getD r pending
 
